@@ -1,0 +1,11 @@
+//go:build !verif
+
+package syncer
+
+import "time"
+
+// No-op stand-ins for the verification hooks (see verif_yield.go, build tag "verif").
+
+func (s *Syncer) verifYield(point string) {}
+
+func verifClock(t time.Time) time.Time { return t }
